@@ -43,7 +43,7 @@ RULE = ("files of n in {1..6,8,12,20} lines (GFF3 and GTF) whose features have /
         "each of the five merge strategies (all keys distinct: nothing may collide, be overwritten or merged into); (keys of "
         "other types) after every import each sampled stored key is looked up as a str-subclass instance (must find it), as "
         "bytes in utf-8 / latin-1 / utf-16 through the handle under test and through second handles opened with "
-        "default_encoding latin-1 and utf-8 (absent: FeatureNotFoundError), and - numeric-looking keys - as int (either "
+        "default_encoding latin-1 (confusable families: also utf-8) (absent: FeatureNotFoundError), and - numeric-looking keys - as int (either "
         "FeatureNotFoundError or the feature stored under str(int)); ids of an 'encoding' family ('\u00e9', '\u00c3\u00a9', ...) make the "
         "bytes of one key decode to another stored key. non-trivial = >= 2 different derivation branches taken in "
         "one file (or a rejected multi-valued id), or a handle whose position holds another id; distinct = distinct "
@@ -534,7 +534,7 @@ def other_types(ctx, case, db, ids, what):
     handles = [("the handle under test", db, getattr(db, "default_encoding", "utf-8"))]
     extra = []
     if isinstance(db.dbfn, str) and db.dbfn != ":memory:" and os.path.exists(db.dbfn):
-        for enc in ("latin-1", "utf-8"):
+        for enc in ("latin-1",) + (("utf-8",) if case.get("family") else ()):
             try:
                 h = gffutils.FeatureDB(db.dbfn, default_encoding=enc)
             except Exception as ex:
@@ -827,7 +827,7 @@ def run(ctx):
     # several update() calls in a row through one FeatureDB object: each strategy x {empty autoincrements table, counters}
     # on every shard first, then free choice
     combos = [(st, start) for st in G.STRATEGIES for start in ("keyed", "counters")]
-    for i in range(ctx.budget(260, 5000)):
+    for i in range(ctx.budget(200, 5000)):
         st, start = combos[i % len(combos)] if i < 2 * len(combos) else (None, None)
         case = G.gen_successive_case(rng, strategy=st, start=start)
         branches = execute(ctx, case)
